@@ -47,8 +47,9 @@ class HistProp:
     implementation on generated histories  +  the Spec.v checkers evaluated on the implementation output"""
 
     def __init__(self, pid, profile, probes, quick=300, thorough=6000, rule='', nontrivial=None,
-                 assumptions=None, extra_cases=None, final_ops=('stat',), extra=None):
+                 assumptions=None, extra_cases=None, final_ops=('stat',), extra=None, also=()):
         self.extra = extra
+        self.also = also      # P failures of these properties' clauses also count (same claim on this property's states)
         self.pid, self.profile, self.probes = pid, profile, probes
         self.nq, self.nt = quick, thorough
         self.rule, self.nontrivial = rule, nontrivial
@@ -73,7 +74,7 @@ class HistProp:
         def pred(ops):
             mism, pf, _, _ = kv.run_cases([('shrink', ops)], 'shrink-' + self.pid)
             if kind == 'p':
-                return any(f['prop'] == self.pid and f['clause'] == key for f in pf)
+                return any((f['prop'] == self.pid or f['prop'] in self.also) and f['clause'] == key for f in pf)
             return bool(mism)
         return pred
 
@@ -96,7 +97,7 @@ class HistProp:
             cases += g
         mism, pfails, nlines, nchecked = kv.run_cases(cases, 'run-' + pid)
         byname = dict(cases)
-        mine = [f for f in pfails if f['prop'] == pid]
+        mine = [f for f in pfails if f['prop'] == pid or f['prop'] in self.also]
         known_hits, unknown = [], []
         for f in mine:
             e = kv.match_known(known, pid, f['clause'], byname.get(f['case']))
@@ -136,7 +137,7 @@ class HistProp:
             # search for a failing input near the mismatch: more histories, P only
             g, _ = self.gen_cases(seed + 7919, max(200, self.nq), tag='s')
             _, pf2, _, _ = kv.run_cases(g + [('shrunk', small)], 'search-' + pid)
-            pf2 = [f for f in pf2 if f['prop'] == pid and not kv.match_known(known, pid, f['clause'])]
+            pf2 = [f for f in pf2 if (f['prop'] == pid or f['prop'] in self.also) and not kv.match_known(known, pid, f['clause'])]
             if pf2:
                 f = pf2[0]
                 ops2 = dict(g + [('shrunk', small)])[f['case']]
@@ -339,7 +340,7 @@ def cfg_c16(rng):
 def cfg_c17(rng):
     p = prof_base(rng, versions=[1, 2], p_checkrecover=0.2)
     p['weights'] = w(reopen=28)
-    p['after_close'] = ['files']
+    p['after_close'] = ['files', 'checkall'] if p['time_mode'] != 'rand' or not p['times'] else ['files']
     return p
 
 
@@ -357,7 +358,9 @@ def probes_c11(sh, rng):
 
 
 def probes_c17(sh, rng):
-    return ['probe scan', 'next', 'stat', 'disksize']
+    return ['probe scan', 'next', 'stat', 'disksize', 'probe get 1'] + \
+           (['probe times %d %d' % (min(sh.times.values()) - 1, max(sh.times.values()) + 1)] if sh.times else []) + \
+           (['probe keys -,61,62,6100'] if rng.random() < 0.4 else [])
 
 
 def probes_c15(sh, rng):
@@ -369,8 +372,87 @@ def probes_c16(sh, rng):
 
 
 def cfg_c20(rng):
-    p = prof_base(rng, versions=rng.choice([[2], [1, 2]]), p_rmindex=0.0)
+    p = prof_base(rng, versions=rng.choice([[2], [2], [1, 2]]), p_rmindex=0.1)
+    if p['times']:
+        p['time_mode'] = 'mono'     # Check (which a backup must pass) is only claimed for non-decreasing times
+    p['weights'] = w(backup=25, pub=45, reopen=6)
+    p['weights']['del'] = 8
     return p
+
+
+def probes_c20(sh, rng):
+    return []
+
+
+# ---- C17: "logs whose segments use different format versions behave exactly like single-version logs":
+# every case is also run, on the implementation only, as its single-version twin and the answers compared
+SKIP_TWIN = ('files', 'disksize', 'stat', 'size', 'migrate', 'checkall', 'checkdir', 'statdir')
+
+
+def twin_of(ops):
+    out = []
+    for o in ops:
+        f = o.split()
+        if f[0] == 'open':
+            f[8], f[9], f[10] = '2', '0', '0'
+            out.append(' '.join(f))
+        elif f[0] in SKIP_TWIN:
+            continue
+        else:
+            out.append(o)
+    return out
+
+
+def norm_twin(op, res):
+    k = op.split()[0]
+    if k in ('del', 'delm') or k.startswith('trim') or k in ('cupd', 'cdel', 'c1upd', 'c1del'):
+        out = []
+        for r in res:
+            t = r.split()
+            if t and t[0] == 'ok':
+                out.append(' '.join(t[:1] + t[3:]))
+            elif t and t[0] == 'err':
+                out.append(' '.join(t[:2] + t[4:]))
+            else:
+                out.append(r)
+        return out
+    return res
+
+
+def c17_extra_factory(prop):
+    def extra(pid, tier, seed):
+        n = 150 if tier == 'quick' else 4000
+        cases, _ = prop.gen_cases(seed + 31, n, tag='t')
+        d = kv.workdir('twin-' + pid)
+        import shutil
+        try:
+            a = kv.write_shards([(nm, [o for o in ops if o.split()[0] not in SKIP_TWIN]) for nm, ops in cases], d)
+            os.makedirs(os.path.join(d, 'tw'), exist_ok=True)
+            b = kv.write_shards([(nm, twin_of(ops)) for nm, ops in cases], os.path.join(d, 'tw'))
+            kv.run_impl_only(a + b, d)
+            viol, compared = [], 0
+            for pa, pb in zip(a, b):
+                ra, rb = kv.parse_out(pa + '.impl'), kv.parse_out(pb + '.impl')
+                for case, opsa in ra.items():
+                    opsb = rb.get(case, [])
+                    for i, (op, res) in enumerate(opsa):
+                        if op.startswith('open'):
+                            continue
+                        compared += len(res)
+                        if i < len(opsb) and norm_twin(op, res) != norm_twin(op, opsb[i][1]):
+                            src = dict(cases)[case]
+                            viol.append(('P', '# C17 violated: a mixed-version / migrated log answers differently from its '
+                                              'single-version twin (same calls, NewSegmentsVersion V2, no migration)\n'
+                                              '# first differing call: %s\n# mixed:  %s\n# single: %s\n'
+                                              'case replay\n%s\n' % (op, res[:3], opsb[i][1][:3], '\n'.join(src))))
+                            break
+            return viol, dict(twin=dict(cases=len(cases), result_lines_compared=compared,
+                                        rule='each generated history also runs as its single-version twin on the '
+                                             'implementation; all query answers, deleted message lists and NextOffset must agree'))
+        finally:
+            if not os.environ.get('KV_KEEP'):
+                shutil.rmtree(d, ignore_errors=True)
+    return extra
 
 
 def any_reopen_delete(ops):
@@ -422,6 +504,12 @@ reg(HistProp('C16', cfg_c16, probes_c16, quick=400, thorough=12000,
              rule='small key set with repeats, 35% tombstones, nil key; FindUpdates/FindDeletes and Compact*(Multi) at cut-offs '
                   'around the current time; latest-value map checked before/after; non-trivial = at least 2 compactions',
              nontrivial=lambda ops: sum(1 for o in ops if o.startswith('cupd') or o.startswith('cdel')) >= 2))
+reg(HistProp('C20', cfg_c20, probes_c20, quick=400, thorough=12000,
+             rule='Log.Backup into fresh directories and repeated into the same directory after publish-only steps; each backup is '
+                  'checked (Segment.Check of every file), opened read-write or read-only and fully observed (scan, Get of every '
+                  'offset, Stat) against the source state at the time of the call; non-trivial = at least one repeated backup',
+             nontrivial=lambda ops: len([o for o in ops if o.startswith('backup')]) >
+             len({o for o in ops if o.startswith('backup')})))
 reg(HistProp('C17', cfg_c17, probes_c17, quick=400, thorough=12000,
              rule='every reopen redraws NewSegmentsVersion/KeepRewriteVersion/EagerVersionMigrate and may Migrate to V1 or V2; '
                   'scan/next/stat after each op, file versions and sizes at every close; non-trivial = >= 2 reopens with deletes',
@@ -439,6 +527,9 @@ def neg_cases(tier):
         ops, _ = gens.gen_history(rng, cfg_c10neg(rng), probes_c10)
         out.append(('neg%d' % i, ops))
     return out
+
+
+REG['C17'].also = ('C01', 'C02', 'C03', 'C04', 'C09', 'C10', 'C12')
 
 
 def get(pid):
